@@ -164,6 +164,8 @@ def targets(tier):
     if os.environ.get("C08_ONLY"):
         want = os.environ["C08_ONLY"].split(",")
         return [t for t in (mk_handler(True), mk_handler(False), mk_regs(), mk_device()) if t.kind in want]
+    if tier == "quick":
+        return [mk_handler(True), mk_regs(), mk_device()]
     return [mk_handler(True), mk_handler(False), mk_regs(), mk_device()]
 
 
@@ -507,14 +509,14 @@ def obligations(targets, tier):
         if t.kind == "handler":
             sletters, sdesc = handler_alphabet(tier, spec=True)
             letters, desc = handler_alphabet(tier)
-            obs.append(tie.rmon("ob_handler_spec", t, mon="hd_spec_mon", m0="dev_spec_m0", alpha_bits=0, alphabet=nl(sletters), fuel=100000,
+            obs.append(tie.rmon("ob_handler_spec", t, mon="hd_spec_mon", m0="dev_spec_m0", alpha_bits=0, alphabet=nl(sletters), fuel=3000,
                                 describe="StandardRequestHandler (sliced netlist): its address/configuration write strobes are exactly the commits "
                                          "of the SPECIFICATION (pending request, armed by the status-stage answer, disarmed by any token), value = "
                                          "wValue truncated; all traces over the alphabet: " + sdesc + "; environment: setup fields stable unless received"))
             obs.append(tie_alpha.rlock_alpha(
                 "ob_handler", t, St="hstate", mstep="hd_step", enc="h_enc", dec="h_dec", wf="(fun _ => True)",
                 dec_enc="(fun h _ => h_dec_enc h)", wf_step="(fun _ _ _ => I)", m0="h_init", wf_m0="exact I.",
-                alphabet=nl(letters), fuel=100000,
+                alphabet=nl(letters), fuel=3000,
                 describe="StandardRequestHandler (sliced netlist) == request-handler model (3 merged states + two expecting_ack registers), "
                          "all traces over the alphabet: " + desc + " (no environment assumption)"))
             obs.append(tie.corr("corr_handler", t, mstep="hd_step", m0="h_init",
@@ -530,7 +532,7 @@ def obligations(targets, tier):
             obs.append(tie_alpha.rlock_alpha(
                 "ob_regs", t, St="(N * N)%type", mstep="rg_step", enc="rg_enc", dec="rg_dec", wf="rg_wf",
                 dec_enc="rg_dec_enc", wf_step="rg_wf_step", m0="(0, 0)", wf_m0="exact rg_wf_init.",
-                alphabet=nl(letters), fuel=100000,
+                alphabet=nl(letters), fuel=3000,
                 describe="address/configuration registers of the real USBDevice (two stub endpoints, stub reset sequencer; sliced) == register model "
                          "(endpoint added first has priority; bus reset wins); all traces over: " + desc))
             obs.append(tie.corr("corr_regs", t, mstep="rg_step", m0="(0, 0)",
